@@ -295,6 +295,112 @@ func c09(c *Ctx) {
 	if fn := c.Fn(resutilPkg, "", "GetPodNUMARequestAndUsage"); fn != nil {
 		c09zones(c, fn)
 	}
+	if fn := c.Fn(resutilPkg, "", "CalculateMidResourceByPolicy"); fn != nil {
+		c09mid(c, fn, true)
+	}
+	if fn := c.Fn(resutilPkg, "", "CalculateMidResourceByStaticMode"); fn != nil {
+		c09mid(c, fn, false)
+	}
+}
+
+// c09mid: mid-tier amounts: min(reclaimable, unused) floored at zero, plus the unallocated share, capped by capacity x threshold.
+func c09mid(c *Ctx, fn *ssa.Function, policy bool) {
+	r := c.R
+	r.Rule("PATH(mid tier): in CalculateMidResourceByPolicy, for CPU and memory: the reclaimable amount is replaced by the node's unused amount under '>' and by 0 under '< 0' before it is used; the unallocated share is added with Quantity.Add; the capacity x threshold cap (comparison Value() > int64(max) replacing the quantity by NewQuantity(int64(max))) comes after that Add and decides the returned quantity")
+	rets := []*ssa.Return{}
+	for _, b := range fn.Blocks {
+		if ret, ok := b.Instrs[len(b.Instrs)-1].(*ssa.Return); ok {
+			rets = append(rets, ret)
+		}
+	}
+	if len(rets) != 1 {
+		r.Unknown("PATH", fkey(fn)+"/mid", c.Pos(fn.Pos()), "expected a single return")
+		return
+	}
+	for i, name := range []string{"cpu", "memory"} {
+		key := fkey(fn) + "/mid/" + name
+		res := rets[0].Results[i]
+		phi, ok := res.(*ssa.Phi)
+		if !ok {
+			r.Fail("PATH", key+"/capped", c.InstrPos(rets[0]), "the returned "+name+" quantity is not chosen between the computed amount and the capacity cap (no merge of two alternatives): the threshold cap is missing")
+			continue
+		}
+		var capAlt, base ssa.Value
+		for _, e := range phi.Edges {
+			if call, ok := e.(*ssa.Call); ok && an.ShortCallee(&call.Call) == "NewQuantity" && strings.Contains(an.Path(call.Call.Args[0]), "nodeCapacity") {
+				capAlt = e
+			} else {
+				base = e
+			}
+		}
+		okCap := false
+		var cmp *ssa.BinOp
+		if capAlt != nil {
+			for _, g := range an.Guards(capAlt.(*ssa.Call)) {
+				if bo, ok := g.Cond.(*ssa.BinOp); ok && bo.Op == token.GTR && g.Truth && strings.Contains(an.Path(bo.Y), "nodeCapacity") {
+					okCap = true
+					cmp = bo
+				}
+			}
+		}
+		r.Check(okCap, "PATH", key+"/capped", c.InstrPos(rets[0]), name+" is capped by capacity x threshold", "the capacity x threshold cap of the mid "+name+" amount is missing or not selected under 'amount > cap'")
+		if !policy {
+			continue
+		}
+		// Add of the unallocated share precedes the cap comparison
+		okAdd := false
+		for _, cl := range an.Calls(fn, false) {
+			if an.CalleeName(cl.Common()) == "(*k8s.io/apimachinery/pkg/api/resource.Quantity).Add" && base != nil && cl.Common().Args[0] == base {
+				if cmp != nil && instrBefore(cl, cmp) && strings.Contains(an.Path(cl.Common().Args[1]), "unallocated") {
+					okAdd = true
+				}
+			}
+		}
+		r.Check(okAdd, "PATH", key+"/cap-after-add", c.InstrPos(rets[0]), "the cap is applied after the unallocated share was added", "the unallocated share is added after (or independently of) the capacity cap: the published mid amount can exceed capacity x threshold")
+		// the base quantity derives from the clamped reclaimable amount: min with unused and floor at zero
+		var amount ssa.Value
+		if bc, ok := base.(*ssa.Call); ok && an.ShortCallee(&bc.Call) == "NewQuantity" {
+			amount = bc.Call.Args[0]
+		}
+		var minUnused, floor0 bool
+		if p2, ok := amount.(*ssa.Phi); ok {
+			// phi(x, 0) under x < 0 ; x = phi(param, unused) under param > unused
+			for _, b := range fn.Blocks {
+				for _, in := range b.Instrs {
+					bo, ok := in.(*ssa.BinOp)
+					if !ok {
+						continue
+					}
+					src := an.Sources(bo.X, nil)
+					fromParam := false
+					for _, l := range src {
+						if pr, ok := l.(*ssa.Parameter); ok && strings.HasPrefix(pr.Name(), "allocatable") {
+							fromParam = true
+						}
+					}
+					if !fromParam {
+						continue
+					}
+					inSlice := false
+					for x := range backwardAll(p2) {
+						if x == ssa.Value(bo.X) || x == bo.X {
+							inSlice = true
+						}
+					}
+					if !inSlice {
+						continue
+					}
+					if bo.Op == token.GTR && strings.Contains(an.Path(bo.Y), "nodeUnused") {
+						minUnused = true
+					}
+					if k, isC := constIntOf(bo.Y); bo.Op == token.LSS && isC && k == 0 {
+						floor0 = true
+					}
+				}
+			}
+		}
+		r.Check(minUnused && floor0, "PATH", key+"/min-unused-floor-zero", c.Pos(fn.Pos()), "reclaimable amount is limited by the unused amount and floored at zero", sprintf("the mid %s amount is not min(reclaimable, unused) floored at zero (limited by unused: %v, floored at zero: %v)", name, minUnused, floor0))
+	}
 }
 
 // c09zones: the share per allocated zone divides by the number of allocated ids that are valid zone indices.
